@@ -29,12 +29,17 @@ package main
 //     arguments) are seen through; loops are "every index of slice S once"
 //     (range with or without value variable, or 0..len(S)-1); calls are found
 //     in the function or in same-package helpers it calls (extracted loop
-//     bodies); guards may be predicate helpers or use named locals;
+//     bodies); guards may be predicate helpers, use named locals, or test a
+//     boolean flag (`inside := col < W && row < H; if inside {...}`): a flag
+//     with one definition stands for its definition as long as no variable of
+//     the definition can be assigned between the definition and the use;
 //   * bounds (a) are computed by abstract interpretation, so if/switch, merged
 //     or split guards, early return vs nesting, x++ vs x += 1, named constants
 //     and mirrored comparisons are the same thing; helpers returning an integer
 //     or a Size, or updating a *Size argument, are interpreted with the caller's
-//     argument values (depth <= 3);
+//     argument values (depth <= 3); a local `p := &size` used only as p.f / *p
+//     is the variable it points to (also what the global helper inlining
+//     leaves behind for a *Size out-parameter);
 //   * minima (c.expect) count what must exist semantically, not today's number.
 
 import (
@@ -936,6 +941,7 @@ type c14Interp struct {
 	wTerm, hTerm string       // term ids of ctx.Max.Width/Height in this function ("" without ctx)
 	untracked    map[types.Object]bool
 	ptrs         map[types.Object]bool
+	alias        map[types.Object]types.Object // local `p := &x` used only as p.f / *p  ->  x
 	trackIDs     map[string]bool
 	in           map[*cfg.Block]c14State
 	depth        int
@@ -997,6 +1003,10 @@ func (e *c14Env) newInterp(g *FG, ctxObj types.Object, opts *c14Opts) *c14Interp
 		}
 		return true
 	})
+	it.alias = c14PtrAliases(info, g.Body, ctxObj)
+	for _, u := range c14AliasDefs(info, g.Body, it.alias) {
+		managed[u] = true
+	}
 	var inLit func(n ast.Node, lit bool)
 	inLit = func(n ast.Node, lit bool) {
 		ast.Inspect(n, func(m ast.Node) bool {
@@ -1060,6 +1070,12 @@ func (e *c14Env) newInterp(g *FG, ctxObj types.Object, opts *c14Opts) *c14Interp
 		})
 	}
 	inLit(g.Body, false)
+	for p, x := range it.alias {
+		// whatever gives up the pointer gives up the variable it points to
+		if it.untracked[p] {
+			it.untracked[x] = true
+		}
+	}
 	ast.Inspect(g.Body, func(n ast.Node) bool {
 		if x, ok := n.(ast.Expr); ok {
 			if id, ok := it.trackable(x); ok {
@@ -1076,6 +1092,140 @@ func (e *c14Env) newInterp(g *FG, ctxObj types.Object, opts *c14Opts) *c14Interp
 	return it
 }
 
+// canonID rewrites a term id rooted at an alias pointer (p := &x) to the id
+// rooted at x.
+func (it *c14Interp) canonID(id string) string {
+	for p, x := range it.alias {
+		from := c14ID(p, "")
+		if id == from || strings.HasPrefix(id, from+".") {
+			return c14ID(x, "") + id[len(from):]
+		}
+	}
+	return id
+}
+
+// c14PtrAliases finds the locals p of body with exactly one definition
+// `p := &x` (x a local or parameter variable of struct type, not the constraint)
+// that are used only as `p.field`, `*p` or `_ = p`: p.field is x.field
+// wherever p is in scope. (This is what inlining a helper with a pointer
+// out-parameter produces, and what `s := &size` style edits write.) Any other
+// use of p (passed on, stored, compared, method value, reassigned, &p) is no
+// alias: &x then makes x untracked as before.
+func c14PtrAliases(info *types.Info, body ast.Node, ctxObj types.Object) map[types.Object]types.Object {
+	out := map[types.Object]types.Object{}
+	for _, u := range c14AliasCandidates(info, body) {
+		p, x := u.p, u.x
+		if x == ctxObj || out[p] != nil {
+			continue
+		}
+		if defs, dirty := c14Defs(info, body, p); dirty || len(defs) != 1 {
+			continue
+		}
+		ok := true
+		var stack []ast.Node
+		ast.Inspect(body, func(n ast.Node) bool {
+			if n == nil {
+				stack = stack[:len(stack)-1]
+				return true
+			}
+			stack = append(stack, n)
+			id, isID := n.(*ast.Ident)
+			if !isID || info.Uses[id] != p || len(stack) < 2 {
+				return true
+			}
+			parent := stack[len(stack)-2]
+			for i := len(stack) - 2; i > 0; i-- {
+				if _, paren := stack[i].(*ast.ParenExpr); !paren {
+					break
+				}
+				parent = stack[i-1]
+			}
+			switch t := parent.(type) {
+			case *ast.SelectorExpr:
+				if sl, has := info.Selections[t]; has && sl.Kind() == types.FieldVal && unparen(t.X) == ast.Expr(id) {
+					return true
+				}
+			case *ast.StarExpr:
+				return true
+			case *ast.AssignStmt:
+				if len(t.Lhs) == 1 && len(t.Rhs) == 1 && unparen(t.Rhs[0]) == ast.Expr(id) {
+					if l, isL := t.Lhs[0].(*ast.Ident); isL && l.Name == "_" {
+						return true
+					}
+				}
+			}
+			ok = false
+			return true
+		})
+		if ok {
+			out[p] = x
+		}
+	}
+	// chains (q := &x; p := q is not a candidate) and aliases of aliases are not followed
+	return out
+}
+
+type c14AliasCand struct {
+	p, x types.Object
+	amp  *ast.UnaryExpr
+}
+
+func c14AliasCandidates(info *types.Info, body ast.Node) []c14AliasCand {
+	var out []c14AliasCand
+	add := func(name *ast.Ident, rhs ast.Expr) {
+		p, _ := info.Defs[name].(*types.Var)
+		u, ok := unparen(rhs).(*ast.UnaryExpr)
+		if p == nil || !ok || u.Op != token.AND {
+			return
+		}
+		xid, ok := unparen(u.X).(*ast.Ident)
+		if !ok {
+			return
+		}
+		x, _ := info.Uses[xid].(*types.Var)
+		if x == nil || x.IsField() || x.Pkg() == nil || x.Parent() == x.Pkg().Scope() {
+			return
+		}
+		if _, isStruct := x.Type().Underlying().(*types.Struct); !isStruct {
+			return
+		}
+		out = append(out, c14AliasCand{p: p, x: x, amp: u})
+	}
+	ast.Inspect(body, func(n ast.Node) bool {
+		switch s := n.(type) {
+		case *ast.FuncLit:
+			return false
+		case *ast.AssignStmt:
+			if s.Tok == token.DEFINE && len(s.Lhs) == len(s.Rhs) {
+				for i, l := range s.Lhs {
+					if id, ok := l.(*ast.Ident); ok {
+						add(id, s.Rhs[i])
+					}
+				}
+			}
+		case *ast.ValueSpec:
+			if len(s.Values) == len(s.Names) {
+				for i, name := range s.Names {
+					add(name, s.Values[i])
+				}
+			}
+		}
+		return true
+	})
+	return out
+}
+
+// c14AliasDefs: the `&x` expressions that define the accepted aliases.
+func c14AliasDefs(info *types.Info, body ast.Node, alias map[types.Object]types.Object) []*ast.UnaryExpr {
+	var out []*ast.UnaryExpr
+	for _, c := range c14AliasCandidates(info, body) {
+		if alias[c.p] == c.x {
+			out = append(out, c.amp)
+		}
+	}
+	return out
+}
+
 // trackable: a local (or parameter) value-typed variable, or a field path of
 // one through structs only; not address-taken, not a range variable, not
 // assigned in a closure. A pointer parameter bound by the caller (ptrs) is
@@ -1090,7 +1240,7 @@ func (it *c14Interp) trackable(x ast.Expr) (string, bool) {
 			cur = t.X
 			continue
 		case *ast.StarExpr:
-			if id, ok := unparen(t.X).(*ast.Ident); ok && it.ptrs[it.info.ObjectOf(id)] {
+			if id, ok := unparen(t.X).(*ast.Ident); ok && (it.ptrs[it.info.ObjectOf(id)] || it.alias[it.info.ObjectOf(id)] != nil) {
 				cur = id
 				sels = append(sels, nil) // explicit deref
 				continue
@@ -1110,6 +1260,18 @@ func (it *c14Interp) trackable(x ast.Expr) (string, bool) {
 				return "", false
 			}
 			_, isPtr := v.Type().Underlying().(*types.Pointer)
+			if tgt := it.alias[v]; tgt != nil {
+				// p.f / *p with p := &x denotes x.f / x
+				if it.untracked[tgt] || len(sels) == 0 {
+					return "", false
+				}
+				for i, s := range sels {
+					if s != nil && s.Indirect() && i != len(sels)-1 {
+						return "", false
+					}
+				}
+				return it.canonID(termOf(it.info, x).ID), true
+			}
 			if isPtr && !it.ptrs[v] {
 				return "", false
 			}
@@ -1643,6 +1805,7 @@ func (it *c14Interp) refine(st c14State, cond *Cond, pol bool) c14State {
 	}
 	out := st.clone()
 	for _, a := range atoms {
+		a.A.ID, a.B.ID = it.canonID(a.A.ID), it.canonID(a.B.ID)
 		if a.Kind != "lin" || !it.trackIDs[a.A.ID] {
 			continue
 		}
@@ -1971,31 +2134,62 @@ func (sc *c14Scope) normFacts(facts []Atom) []Atom {
 func (e *c14Env) c14GuardFactsRaw(g *FG, sc *c14Scope, loc Loc) []Atom {
 	facts := g.FactsAt(loc)
 	for _, gd := range g.Guards(loc) {
-		if gd.Cond.Tag != nil {
+		if gd.Cond.Tag != nil || gd.Cond.Alts != nil {
 			continue
 		}
-		x, pol := unparen(gd.Cond.Expr), gd.Pol
-		for {
-			u, ok := x.(*ast.UnaryExpr)
-			if !ok || u.Op != token.NOT {
-				break
+		facts = append(facts, e.c14DeepAtoms(g, sc, gd, loc, gd.Cond.Expr, gd.Pol, 0)...)
+	}
+	return facts
+}
+
+// c14DeepAtoms returns the atoms that the leaves of guard condition x which
+// FactsAt cannot open stand for, when x has truth value pol at the guard and
+// control then reaches loc:
+//   - a call of a predicate helper with a `return expr` body (parameters
+//     renamed to the caller's argument terms);
+//   - a boolean flag: a local with exactly one definition `flag := cond` (or
+//     `var flag = cond`) that is never otherwise written or address-taken; the
+//     atoms of cond hold at loc when no variable of cond can be assigned on a
+//     path from the definition to loc (definitions nest, depth <= 4).
+//
+// Conjunction / disjunction / negation are split exactly as in exprAtoms.
+func (e *c14Env) c14DeepAtoms(g *FG, sc *c14Scope, gd Guard, loc Loc, x ast.Expr, pol bool, depth int) []Atom {
+	x = unparen(x)
+	switch t := x.(type) {
+	case *ast.UnaryExpr:
+		if t.Op == token.NOT {
+			return e.c14DeepAtoms(g, sc, gd, loc, t.X, !pol, depth)
+		}
+		return nil
+	case *ast.BinaryExpr:
+		if (t.Op == token.LAND && pol) || (t.Op == token.LOR && !pol) {
+			return append(e.c14DeepAtoms(g, sc, gd, loc, t.X, pol, depth), e.c14DeepAtoms(g, sc, gd, loc, t.Y, pol, depth)...)
+		}
+		if t.Op == token.EQL || t.Op == token.NEQ {
+			// flag == true, flag != false, ...
+			for _, pr := range [][2]ast.Expr{{t.X, t.Y}, {t.Y, t.X}} {
+				tv, ok := g.Info.Types[pr[1]]
+				if !ok || tv.Value == nil || !c14IsBool(tv.Type) {
+					continue
+				}
+				val := tv.Value.String() == "true"
+				return e.c14DeepAtoms(g, sc, gd, loc, pr[0], pol == (val == (t.Op == token.EQL)), depth)
 			}
-			x, pol = unparen(u.X), !pol
 		}
-		call, ok := x.(*ast.CallExpr)
-		if !ok {
-			continue
-		}
-		ns := sc.enter(call)
+		return nil
+	case *ast.Ident:
+		return e.c14FlagAtoms(g, sc, gd, loc, t, pol, depth)
+	case *ast.CallExpr:
+		ns := sc.enter(t)
 		if ns == nil {
-			continue
+			return nil
 		}
 		r := ns.pureReturn()
 		if r == nil {
-			continue
+			return nil
 		}
-		if objs := objsIn(g.Info, call); len(objs) > 0 && g.AssignedBetween(gd, loc, objs) {
-			continue
+		if objs := objsIn(g.Info, t); len(objs) > 0 && g.AssignedBetween(gd, loc, objs) {
+			return nil
 		}
 		ren := map[string]string{}
 		for o, arg := range ns.env {
@@ -2009,12 +2203,92 @@ func (e *c14Env) c14GuardFactsRaw(g *FG, sc *c14Scope, loc Loc) []Atom {
 			}
 			return t
 		}
+		var out []Atom
 		for _, a := range exprAtoms(ns.info, r, pol) {
 			a.A, a.B = rename(a.A), rename(a.B)
-			facts = append(facts, a)
+			out = append(out, a)
+		}
+		return out
+	}
+	return nil
+}
+
+func c14IsBool(t types.Type) bool {
+	if t == nil {
+		return false
+	}
+	b, ok := t.Underlying().(*types.Basic)
+	return ok && b.Info()&types.IsBoolean != 0
+}
+
+// c14FlagAtoms: see c14DeepAtoms.
+func (e *c14Env) c14FlagAtoms(g *FG, sc *c14Scope, gd Guard, loc Loc, id *ast.Ident, pol bool, depth int) []Atom {
+	if depth > 4 || g.Info != sc.info {
+		return nil
+	}
+	v, ok := g.Info.ObjectOf(id).(*types.Var)
+	if !ok || v.IsField() || !c14IsBool(v.Type()) || v.Parent() == nil || v.Parent() == v.Pkg().Scope() {
+		return nil
+	}
+	defs, dirty := c14Defs(g.Info, sc.body, v)
+	if dirty || len(defs) != 1 || defs[0].rhs == nil || defs[0].tuple >= 0 {
+		return nil
+	}
+	def := defs[0]
+	switch at := def.at.(type) {
+	case *ast.AssignStmt:
+		if at.Tok != token.DEFINE {
+			return nil
+		}
+	case *ast.ValueSpec:
+	default:
+		return nil
+	}
+	if tv, ok := g.Info.Types[def.rhs]; ok && tv.Value != nil {
+		return nil
+	}
+	dloc, ok := g.Locate(def.at)
+	if !ok {
+		return nil
+	}
+	// the definition must be a CFG node of this graph and not sit inside a
+	// function literal (Locate does not enter them)
+	isDef := func(n ast.Node) bool { return n == def.at }
+	objs := objsIn(g.Info, def.rhs)
+	delete(objs, v)
+	if len(objs) > 0 {
+		// a function literal writing one of the variables can run at any time
+		litWrites := false
+		ast.Inspect(sc.body, func(n ast.Node) bool {
+			if fl, ok := n.(*ast.FuncLit); ok && assignsAny(g.Info, fl.Body, objs) {
+				litWrites = true
+			}
+			return !litWrites
+		})
+		if litWrites {
+			return nil
+		}
+		for _, b := range g.Blocks {
+			for i, n := range b.Nodes {
+				al := Loc{b, i}
+				if al == dloc || !assignsAny(g.Info, n, objs) {
+					continue
+				}
+				if g.ReachesAvoiding(al, loc, isDef) {
+					return nil
+				}
+			}
 		}
 	}
-	return facts
+	out := exprAtoms(g.Info, def.rhs, pol)
+	keep := out[:0]
+	for _, a := range out {
+		if a.Kind == "bool" {
+			continue // re-derived below when it is itself a flag
+		}
+		keep = append(keep, a)
+	}
+	return append(keep, e.c14DeepAtoms(g, sc, gd, loc, def.rhs, pol, depth+1)...)
 }
 
 func (e *c14Env) checkWriteCell() {
